@@ -75,6 +75,9 @@ inductive JsExpr where
   | paren (x : JsExpr)                    -- `(x)`
   | call1 (f : Fn1) (a : JsExpr)          -- `Math.floor(a)`, `a.length`, `a!= null`
   | call2 (f : Fn2) (a b : JsExpr)        -- `Math.min(a,b)`
+  | loopFirst (idx : Bytes)               -- `(idx == 0)`
+  | loopLastEach (idx lim : Bytes)        -- `(idx == lim - 1)`
+  | loopLastRange (v step lim : Bytes)    -- `(v + step >= lim)`
 
 def numRes (i : Int) : JOut := if exact i then .val (.num i) else .unspec
 
@@ -191,6 +194,12 @@ def apply2 (f : Fn2) (a b : JVal) : JOut :=
     | .max => .val (.num (if x > y then x else y))
   | _, _ => .unspec
 
+/-- the number a variable holds -/
+def localNum (env : JEnv) (x : Bytes) : Option Int :=
+  match env.locals.find? (·.1 == x) with
+  | some (_, .num i) => some i
+  | _ => none
+
 def eval (env : JEnv) : JsExpr → JOut
   | .null => .val .null
   | .bool b => .val (.bool b)
@@ -226,5 +235,18 @@ def eval (env : JEnv) : JsExpr → JOut
   | .paren x => eval env x
   | .call1 f a => (eval env a).bind fun v => apply1 f v
   | .call2 f a b => (eval env a).bind fun va => (eval env b).bind fun vb => apply2 f va vb
+  -- the tests of a loop's first / last iteration: comparisons of numeric variables (§11.9.3, §11.8.4 on numbers)
+  | .loopFirst idx =>
+    match localNum env idx with
+    | some i => .val (.bool (i == 0))
+    | none => .unspec
+  | .loopLastEach idx lim =>
+    match localNum env idx, localNum env lim with
+    | some i, some n => (numRes (n - 1)).bind fun _ => .val (.bool (i == n - 1))
+    | _, _ => .unspec
+  | .loopLastRange v step lim =>
+    match localNum env v, localNum env step, localNum env lim with
+    | some a, some s, some l => (numRes (a + s)).bind fun _ => .val (.bool (decide (l ≤ a + s)))
+    | _, _, _ => .unspec
 
 end SoyVerif.Spec.JsSemRef
